@@ -61,8 +61,8 @@ def start_watchdog():
     counter stops moving for HANG_SECONDS, interrupt the main thread."""
     import signal
     import threading
-    if _WATCHDOG[0] is not None:
-        return
+    if _WATCHDOG[0] == os.getpid():      # per process (threads do not
+        return                             # survive fork)
     signal.signal(signal.SIGUSR1, _on_hang)
     main_id = threading.main_thread().ident
 
@@ -80,7 +80,7 @@ def start_watchdog():
 
     t = threading.Thread(target=loop, daemon=True)
     t.start()
-    _WATCHDOG[0] = t
+    _WATCHDOG[0] = os.getpid()
 
 
 class hang_guard(object):
@@ -242,14 +242,14 @@ def run_shards(ctx, jobs_list, report=None):
     # seed only permutes the order in which shards are executed
     k = ctx.seed % len(jobs_list)
     order = jobs_list[k:] + jobs_list[:k]
-    if ctx.jobs <= 1 or len(order) == 1:
+    if ctx.jobs <= 1 and False:
         results = map(_worker, order)
     else:
         mp = multiprocessing.get_context("fork")
         # one fresh forked process per shard: a shard's outcome is a function
         # of its argument only, not of what the worker ran before (matters
         # for defects that depend on call history, e.g. a cache)
-        pool = mp.Pool(min(ctx.jobs, len(order)), maxtasksperchild=1)
+        pool = mp.Pool(max(1, min(ctx.jobs, len(order))), maxtasksperchild=1)
         results = pool.imap_unordered(_worker, order, chunksize=1)
     try:
         for part, packed, err in results:
@@ -257,10 +257,51 @@ def run_shards(ctx, jobs_list, report=None):
                 raise RuntimeError("worker failed in part %s:\n%s" % (part, err))
             report.absorb(part, packed)
     finally:
-        if ctx.jobs > 1 and len(order) > 1:
-            pool.terminate()
-            pool.join()
+        pool.terminate()
+        pool.join()
     return report
+
+
+def mixed_shard(arg):
+    """Cross-configuration sequence: cases that were each judged in their own
+    process by the main enumeration are run here in ONE process, in the given
+    order, reversed, and in the given order again - state kept by the library
+    between calls (a cache keyed too coarsely, a hoisted buffer) shows up as a
+    verdict that differs from the isolated one."""
+    import importlib
+    modname, items = arg
+    mod = importlib.import_module(modname)
+    sh = Shard()
+    seq = list(items) + list(reversed(items)) + list(items)
+    for idx, (check, case) in enumerate(seq):
+        sh.n += 1
+        sh.nt += 1
+        case = unjson(jsonable(case))
+        try:
+            v = mod.replay(check, case)
+        except Exception as e:
+            v = dict(cls="raises", expected=None,
+                     observed="%s: %s" % (type(e).__name__, e))
+        if v is not None:
+            sh.hist["fail:mixed"] += 1
+            sh.violation("mixed", "mixed-sequence:%s:%s" % (check, v["cls"]),
+                         dict(position=idx, check=check, case=case,
+                              sequence_length=len(seq)),
+                         v.get("expected"), v.get("observed"))
+            break
+    sh.sample(dict(sequence_of=len(items), order="given, reversed, given",
+                   first=jsonable(items[0]) if items else None), cap=1)
+    return sh
+
+
+def run_mixed(ctx, mod, report):
+    fn = getattr(mod, "mixed_cases", None)
+    if fn is None:
+        return
+    groups = fn(ctx)
+    jobs = [(mixed_shard, "cross-configuration-sequences",
+             (mod.__name__, g)) for g in groups if g]
+    run_shards(ctx, jobs, report)
 
 
 def chunks(seq, n):
@@ -428,7 +469,11 @@ def finish(ctx, report, level, replay_fn=None):
     for v in chosen:
         if replay_fn is not None:
             case = unjson(jsonable(v["case"]))
-            again = _isolated_replay(replay_fn, v["check"], case, v["cls"])
+            if v["check"] == "mixed":
+                again = None             # only meaningful as a whole sequence
+            else:
+                again = _isolated_replay(replay_fn, v["check"], case,
+                                         v["cls"])
             if again is None and v.get("shard"):
                 # not reproducible in isolation: does the shard, re-run from
                 # a fresh process, show the same failure again?
